@@ -366,6 +366,18 @@ func fConsumedArg(routes []string, bodies map[int][]string) [][]string {
 	return out
 }
 
+type wire struct{ SkipRequestBody, SkipResponseBody bool }
+
+type fakeResponse struct{ ct string }
+
+func (r *fakeResponse) fWrongSide(w *wire) bool { return r.ct == "text/plain" && !w.SkipRequestBody }
+
+type flagsA struct{ Timeout, Temporary bool }
+
+type flagsB struct{ Temporary, Timeout bool }
+
+func fPositional(a flagsA) flagsB { return flagsB{a.Timeout, a.Temporary} }
+
 func fSwallow(xs []string, visit func(string) error) error {
 	for _, x := range xs {
 		if err := visit(x); err != nil {
@@ -449,6 +461,6 @@ func LintSelfTest() (map[string]bool, error) {
 }
 
 // SelfTestKinds lists the lint kinds that must fire in the self-test.
-var SelfTestKinds = []string{"lateguard", "afterput", "dupbranch", "selfsearch", "twinguard", "lazyinit", "shallow", "var", "memo", "recursion", "slice", "flag", "break", "swap", "guardfield", "retryonce", "guardvar", "rawname", "invariant", "mapstore", "selfcopy", "parity", "maporder", "swallow", "poolleak", "copyslip", "idxspace", "seqparity", "clonecond", "bypass", "aliasstore", "consumedarg"}
+var SelfTestKinds = []string{"lateguard", "afterput", "dupbranch", "selfsearch", "twinguard", "lazyinit", "shallow", "var", "memo", "recursion", "slice", "flag", "break", "swap", "guardfield", "retryonce", "guardvar", "rawname", "invariant", "mapstore", "selfcopy", "parity", "maporder", "swallow", "poolleak", "copyslip", "idxspace", "seqparity", "clonecond", "bypass", "aliasstore", "consumedarg", "wrongside", "posfield"}
 
 func init() { sort.Strings(SelfTestKinds) }
